@@ -239,8 +239,10 @@ struct Encoding<Table, EnableIfHasEntryList<Table>> : EncodingIO<Table> {
       if (!status)
         return status;
 
-      // Default construct the entry;
-      *entry = T{};
+      // Default construct the entry. Assign from an Entry rather than from T
+      // directly: when T is itself an Optional type, assigning T{} selects the
+      // converting assignment operator and leaves the entry empty.
+      *entry = Entry<T, Id, ActiveEntry>{T{}};
 
       // Use a BoundedReader to handle any padding that might follow the
       // value and catch invalid sizes while decoding inside the binary
